@@ -315,7 +315,7 @@ var _ = ssa.NaiveForm
 // it holds, which WaitGroup tokens and channel-close permissions it owns).
 // Other goroutines cannot change them; a new goroutine starts with all zero
 // except for what its `holds` clauses transfer from the spawner.
-var tlHeaps = []string{"G$lock", "G$wgtok", "G$wgst", "G$mayclose"}
+var tlHeaps = []string{"G$lock", "G$wgtok", "G$wgst", "G$mayclose", "G$chcredit"}
 
 func isTL(name string) bool {
 	for _, n := range tlHeaps {
